@@ -1,6 +1,8 @@
 /* Specification vocabulary for the two matrix copies of SPxLPBase (C contracts of unit lp_mirror).
- * A "file" (row file / column file) is a flat array: vector v owns the MATW cells [v*MATW, v*MATW+MATW), of which the first
- * size[v] are in use; a cell is the pair {val, idx} of Nonzero<int> (two ints: val first, idx second - conformance-checked).
+ * A "file" (row file / column file) is a flat array of cells: vector v owns the MATW cells [v*MATW, v*MATW+MATW), of which the
+ * first size[v] are in use.  The contracts see a file `m` as two parallel int arrays m_i (indices) and m_v (values) plus the size
+ * array; the wrapper copies them into / out of an array of Nonzero cells {val, idx} (struct nzc below, the type the sliced
+ * SVector bodies work on and the loop invariants name through the alias pointers gp_om / gp_cm).
  * Everything is written out for MATW == 3 cells (no quantifier, no loop). */
 #ifndef MIRROR_SPEC_H
 #define MIRROR_SPEC_H
@@ -14,9 +16,10 @@
 #if MATW != 3
 #error "mirror_spec.h is written out for MATW == 3"
 #endif
-#define FILE_INTS (CAP * MATW * 2)
-#define VALAT(m, v, p) ((m)[2 * ((v) * MATW + (p))])
-#define IDXAT(m, v, p) ((m)[2 * ((v) * MATW + (p)) + 1])
+struct nzc { int val; int idx; };   /* = Nonzero<int> (member order conformance-checked) */
+#define FILE_CELLS (CAP * MATW)
+#define VALAT(m, v, p) (m##_v[(v) * MATW + (p)])
+#define IDXAT(m, v, p) (m##_i[(v) * MATW + (p)])
 #define USED(s, v, p) ((p) < (s)[v])
 #define HIT(m, s, v, p, x) (USED(s, v, p) && IDXAT(m, v, p) == (x))
 /* "vector v has an entry with index x" and its value (first match, as SVectorBase::pos) */
@@ -28,9 +31,6 @@
                         !(USED(s, v, 2) && (IDXAT(m, v, 0) == IDXAT(m, v, 2) || IDXAT(m, v, 1) == IDXAT(m, v, 2))))
 #define INR(m, s, v, p, b) (!USED(s, v, p) || (0 <= IDXAT(m, v, p) && IDXAT(m, v, p) < (b)))
 #define INRANGE(m, s, v, b) (INR(m, s, v, 0, b) && INR(m, s, v, 1, b) && INR(m, s, v, 2, b))
-/* every vector that vector v of file (m,s) refers to has a legal size in the other file (s2) */
-#define XS(m, s, v, p, s2) (!USED(s, v, p) || SIZEOK(s2, IDXAT(m, v, p)))
-#define XSIZEOK(m, s, v, s2) (XS(m, s, v, 0, s2) && XS(m, s, v, 1, s2) && XS(m, s, v, 2, s2))
 /* THE property: entry (a, b) with value v is in vector a of file A  <=>  it is in vector b of file B with the same value */
 #define MIRROR(mA, sA, a, mB, sB, b) (HAS(mA, sA, a, b) == HAS(mB, sB, b, a) && \
                                       (!HAS(mA, sA, a, b) || VALOF(mA, sA, a, b) == VALOF(mB, sB, b, a)))
